@@ -39,7 +39,7 @@ def noncontiguous(a: np.ndarray) -> np.ndarray:
 def run_loss(c, e):
     from fractions import Fraction
 
-    from mygrad.nnet.losses import margin_ranking_loss, multiclass_hinge
+    from mygrad.nnet.losses import margin_ranking_loss, multiclass_hinge, negative_log_likelihood
 
     want = Fraction(e["num"], e["den"])
     if c["kind"] == "hinge":
@@ -48,6 +48,16 @@ def run_loss(c, e):
         y = np.array([(i * c["variant"]) % C for i in range(n)])
         outs = {"keyword": multiclass_hinge(mg.tensor(x), y, hinge=c["h2"] / 2.0),
                 "positional": multiclass_hinge(mg.tensor(x), y, c["h2"] / 2.0)}
+    elif c["kind"] == "nll":
+        n, C = c["n"], c["c"]
+        x = fill_x(n * C).reshape(n, C)
+        y = np.array([(i * c["variant"]) % C for i in range(n)])
+        if c["weighted"]:
+            w = fill_k(C) + 3.0
+            outs = {"keyword": negative_log_likelihood(mg.tensor(x), y, weights=w),
+                    "tensor weights, tensor labels": negative_log_likelihood(mg.tensor(x), mg.tensor(y), weights=mg.tensor(w))}
+        else:
+            outs = {"default": negative_log_likelihood(mg.tensor(x), y), "none": negative_log_likelihood(x, y, weights=None)}
     else:
         n = c["n"]
         x1, x2 = fill_x(n), fill_k(n)
@@ -64,7 +74,7 @@ def run_config(item: dict):
     """Returns None if the implementation agrees with the table, else (what, predicted, observed)."""
     c, e = item["cfg"], item["expected"]
     kind = c["kind"]
-    if kind in ("hinge", "margin"):
+    if kind in ("hinge", "margin", "nll"):
         return run_loss(c, e)
     for variant in ("contiguous", "strided"):
         try:
